@@ -119,7 +119,7 @@ class FakePollObject(object):
         return out
 
 
-CMD = {0: '/sim/ok', 1: '/sim/missing', 2: '/sim/noexec', 3: '/sim/noperm', 4: '/sim/dir'}
+CMD = {0: '/sim/ok', 1: '/sim/missing', 2: '/sim/noexec', 3: '/sim/noperm', 4: '/sim/dir', 5: 'sim/rel/ok'}   # 5: relative, used as given
 
 
 class Driver(object):
@@ -395,10 +395,43 @@ class Driver(object):
         else:
             self.kernel.trace.append(('ans', req, 0))
 
+    def _xml_call(self, req, method, args):
+        """The same request through the real XML-RPC handler (marshalled request body -> supervisor_xmlrpc_handler
+        .continue_request -> marshalled response); a deferred response is polled once at once, like the channel does,
+        and then at every 'poll' act."""
+        from supervisor.xmlrpc import RPCError
+        from supervisor.http import NOT_DONE_YET
+        import rpcstack
+        if getattr(self, '_stack_for', None) is not self.sup:
+            self._stack = rpcstack.RpcStack(self.sup, [('supervisor', self.rpc)])
+            self._stack_for = self.sup
+        res = self._stack.call('supervisor.' + method, list(args))
+
+        def settle(r):
+            if r[0] == 'value':
+                return r[1]
+            if r[0] == 'fault':
+                raise RPCError(r[1])
+            raise RPCError(500)          # HTTP error, wrong Content-Length, no answer: reported as code 500
+        if res[0] == 'deferred':
+            d = res[1]
+
+            def cb():
+                r = d.poll()
+                return NOT_DONE_YET if r is None else settle(r)
+            self._poll_deferred(req, cb, first=True)
+            return
+        try:
+            self._answer(req, ('value', settle(res)))
+        except RPCError as e:
+            self._answer(req, ('fault', e.code))
+
     def _call(self, req, fn, *args):
         from supervisor.xmlrpc import RPCError
         from supervisor.http import NOT_DONE_YET
         import types
+        if self.script.get('xml') and getattr(fn, '__self__', None) is self.rpc:
+            return self._xml_call(req, fn.__name__, args)
         try:
             v = fn(*args)
         except RPCError as e:
